@@ -430,6 +430,11 @@ def compare(case, outputs, stats, quick):
         stats.fail({"kind": "driver-output-count"}, {"text": case["text"]}, "driver printed %d cases, expected %d" % (len(outputs), len(exp)))
         return
     groups = {}
+    static_seen = {}
+
+    def wd_all(want_):
+        return set(i[0] for i in want_)
+
     for e, got in zip(exp, outputs):
         want = e["lines"]
         dyn = any(k.split(".")[-1].startswith("has_") and v != "T" for k, v, *_ in want) or any(f in case["features"] for f in ("dynamic-offset", "dynamic-array", "nested-dynamic-struct", "conditional"))
@@ -447,6 +452,23 @@ def compare(case, outputs, stats, quick):
         for item in want:
             wd[item[0]] = item
         gd = dict(got)
+        # min/max size constants: whatever size a view reports lies between them, and they do not
+        # depend on the buffer
+        for k in [k for k in gd if k.endswith(".StaticMinSize") or k.endswith(".StaticMaxSize")]:
+            v = gd.pop(k)
+            base = k.rsplit(".", 1)[0]
+            size = gd.get(base + ".Size")
+            stats.classes["static-size-bound-observed"] += 1
+            if size is not None and base + ".Size" in wd_all(want) and gd.get(base + ".Ok") == "1":
+                lo_ok = int(v) <= int(size) if k.endswith("MinSize") else int(size) <= int(v)
+                if not lo_ok and nfail < 12:
+                    nfail += 1
+                    stats.fail({"kind": "size-outside-static-bounds", "which": k.rsplit(".", 1)[1]}, {"text": case["text"], "struct": e["struct"], "params": e["params"], "buf": e["buf"]}, "%s = %s but the view (Ok) reports size %s (buffer %s, params %s)" % (k, v, size, e["buf"], e["params"]))
+            const_key = (e["struct"], k)
+            prev = static_seen.setdefault(const_key, v)
+            if prev != v and nfail < 12 and not e["params"]:
+                nfail += 1
+                stats.fail({"kind": "static-size-bound-varies"}, {"text": case["text"], "struct": e["struct"], "params": e["params"], "buf": e["buf"]}, "%s is %s for this buffer and was %s for another" % (k, v, prev))
         for item in want:
             k, v = item[0], item[1]
             known_area = len(item) > 2 and item[2] == "array"
